@@ -789,3 +789,51 @@ def burst_cases(seeds, prefix="bu"):
         ops += ["GS " + Sn, "GS " + S2, "GT " + T, "PUB %s 1 65 0" % T, "PULL %s 10 1" % S2, "LTS %s 0 -" % T]
         cases.append(("%s%d" % (prefix, seed), ops))
     return cases
+
+
+# ---------------------------------------------------------------- push (C14)
+
+PUSH_OUTCOMES = ["200", "201", "202", "204", "301", "400", "404", "500", "503", "reset"]
+
+
+def push_cases(seed, n, with_hang=False, prefix="ps"):
+    """Push subscriptions against the scripted endpoint: per-attempt outcomes in all sequences up to length 3
+    (first cases) and random longer ones; a pull subscription and a refused endpoint next to it; deletion."""
+    rng = random.Random(seed)
+    T = hx(tname("p", "t"))
+    P0, P1, PL, PR = hx(sname("p", "push0")), hx(sname("p", "push1")), hx(sname("p", "plain")), hx(sname("p", "refused"))
+    import itertools
+    scripts = [list(s) for r in (1, 2, 3) for s in itertools.product(["200", "204", "500", "404", "reset"], repeat=r)]
+    rng.shuffle(scripts)
+    cases = []
+    for i in range(n):
+        script = scripts[i] if i < len(scripts) else [rng.choice(PUSH_OUTCOMES) for _ in range(rng.randrange(1, 7))]
+        if with_hang and i % 4 == 0:
+            script = script[:1] + ["hang"] + script[1:2]
+        ops = ["MODE push", "SEED %d" % i, "CT " + T,
+               "CS %s %s 10 %s" % (P0, T, hx("http://ep/e0")), "CS %s %s 10 ~" % (PL, T)]
+        if i % 3 == 0:
+            ops.append("CS %s %s 10 %s" % (P1, T, hx("http://ep/e1")))
+        if i % 5 == 0:
+            ops.append("CS %s %s 10 %s" % (PR, T, hx("http://refused/")))
+        ops += ["REG", "EP 0 %d %s" % (len(script), " ".join(script))]
+        k = rng.randrange(1, 4)
+        msgs = []
+        for j in range(k):
+            na = rng.choice([0, 0, 1, 2])
+            keys = rng.sample(["k", "é", "a b"], na)
+            msgs.append("%s %d %s" % (hx(rng.choice([b"", b"hello", b"\x00\xff", "wü".encode()])), na,
+                                      " ".join("%s %s" % (hx(x), hx(rng.choice(["v", "", "ü"]))) for x in keys)))
+        ops.append(" ".join(("PUB %s %d %s" % (T, k, " ".join(msgs))).split()))
+        rounds = rng.randrange(2, 5)
+        for r in range(rounds):
+            ops.append("ROUND")
+            if r == 0 and rng.random() < 0.4:
+                ops.append("PUB %s 1 %s 0" % (T, hx("later")))
+        ops += ["STATS " + P0, "PULL %s 10 1" % PL]
+        if i % 2 == 0:
+            ops += ["DS " + P0, "PUB %s 1 %s 0" % (T, hx("after-delete")), "ROUND", "REG"]
+        else:
+            ops += ["LOOP 40 2", "STATS " + P0]
+        cases.append(("%s%d" % (prefix, i), ops))
+    return cases
